@@ -1,0 +1,107 @@
+//go:build verif
+// +build verif
+
+package api
+
+// Verification hooks (add-only, compiled only with the build tag "verif").
+// Thin accessors to the watch-mode bookkeeping of a build context so that a
+// test can evaluate the context's current watch predicates synchronously,
+// without the polling goroutine and its delays.
+
+import (
+	"sort"
+	"time"
+
+	"github.com/evanw/esbuild/internal/fs"
+)
+
+// VerifWatchManual puts the context into watch mode exactly like Watch()
+// does (same watcher object, WatchMode set on the build options) but does not
+// start the polling goroutine and does not trigger the first watch build: the
+// caller drives rebuilds with Rebuild() and polls with VerifWatcherTick().
+func VerifWatchManual(c BuildContext) bool {
+	ctx, ok := c.(*internalContext)
+	if !ok {
+		return false
+	}
+	ctx.mutex.Lock()
+	defer ctx.mutex.Unlock()
+	if ctx.didDispose || ctx.watcher != nil {
+		return false
+	}
+	ctx.watcher = &watcher{
+		fs:        ctx.realFS,
+		useColor:  ctx.args.logOptions.Color,
+		pathStyle: ctx.args.logOptions.PathStyle,
+		rebuild: func() fs.WatchData {
+			return ctx.rebuild().watchData
+		},
+		delayInMS: time.Duration(0),
+	}
+	ctx.args.options.WatchMode = true
+	return true
+}
+
+// VerifDirtyPaths evaluates every watch predicate of the context's current
+// watch data (the data installed by the most recent build) and returns the
+// sorted non-empty answers, i.e. the paths reported dirty right now.
+func VerifDirtyPaths(c BuildContext) []string {
+	ctx, ok := c.(*internalContext)
+	if !ok {
+		return nil
+	}
+	ctx.mutex.Lock()
+	w := ctx.watcher
+	ctx.mutex.Unlock()
+	if w == nil {
+		return nil
+	}
+	w.mutex.Lock()
+	defer w.mutex.Unlock()
+	dirty := []string{}
+	for _, fn := range w.data.Paths {
+		if p := fn(); p != "" {
+			dirty = append(dirty, p)
+		}
+	}
+	sort.Strings(dirty)
+	return dirty
+}
+
+// VerifWatchedPaths returns the sorted keys of the current watch data.
+func VerifWatchedPaths(c BuildContext) []string {
+	ctx, ok := c.(*internalContext)
+	if !ok {
+		return nil
+	}
+	ctx.mutex.Lock()
+	w := ctx.watcher
+	ctx.mutex.Unlock()
+	if w == nil {
+		return nil
+	}
+	w.mutex.Lock()
+	defer w.mutex.Unlock()
+	keys := make([]string, 0, len(w.data.Paths))
+	for k := range w.data.Paths {
+		keys = append(keys, k)
+	}
+	sort.Strings(keys)
+	return keys
+}
+
+// VerifWatcherTick runs one iteration of the watcher's own scan
+// (tryToFindDirtyPath) and returns the dirty path it found, or "".
+func VerifWatcherTick(c BuildContext) string {
+	ctx, ok := c.(*internalContext)
+	if !ok {
+		return ""
+	}
+	ctx.mutex.Lock()
+	w := ctx.watcher
+	ctx.mutex.Unlock()
+	if w == nil {
+		return ""
+	}
+	return w.tryToFindDirtyPath()
+}
